@@ -250,6 +250,10 @@ void c11_discipline(Ctx &c, const std::string &site, const char *fn, bool failed
     if (installed && mode == C11_MUST && nreports > 1) { c.violate("c11", site + ":callback", strf("%s reported %d errors for one failing call: \"%s\" ... \"%s\"", fn, nreports, g_sim.callbacks.front().msg.c_str(), g_sim.callbacks.back().msg.c_str())); return; }
     if (nreports > 1) c.count("c11.multiple_reports_seen");
     if (installed && mode == C11_MUST && last < 0) { c.violate("c11", site + ":callback", strf("%s failed (errno %s) without calling the error function", fn, errno_name(err))); return; }
+    // a stream that errors or ends early makes the parsers see something else than the file: which of the two
+    // reports (system error of the stream, syntax error of what was read) ends up in errno is not judged
+    bool stream_fault = g_sim.fired_read_eio || g_sim.fired_read_eof || g_sim.fired_write_err || g_sim.fired_close_err || g_sim.fired_open;
+    if (last >= 0 && stream_fault) { c.count("c11.reported_failure_under_stream_fault"); return; }
     if (last >= 0) {
 	int want = last == VNAERR_USAGE ? EINVAL : last == VNAERR_MATH ? EDOM : last == VNAERR_SYNTAX ? EBADMSG : last == VNAERR_VERSION ? ENOPROTOOPT : last == VNAERR_INTERNAL ? ENOSYS : 0;
 	if (want && err != want) { c.violate("c11", site + ":errno", strf("%s reported category %d (%s) but returned with errno %s", fn, last, g_sim.callbacks.back().msg.c_str(), errno_name(err))); return; }
